@@ -3,7 +3,7 @@
 //! `for follow_symbol in item.follow.borrow().iter() { .. }`, sliced verbatim.
 use std::cmp::Ordering;
 // The slice's `Vec` is the heap-free fixed-capacity stand-in (see avec.rs).
-use crate::avec::AVec as Vec;
+type Vec<T> = crate::avec::AVec<T, 6>;
 
 // ---- stand-ins: exactly the names the slice mentions --------------------------------
 #[derive(Debug, Clone, Copy, PartialEq, Eq)]
